@@ -1,25 +1,31 @@
 (** * Text.RoundTrip — printing a lowered program and parsing + lowering the text again gives
     the program back (C22), for the proved core fragment of [Text.Syntax22]:
 
-      items:  structs and enums with flags (upstream, fundamental, phantom_data, one_zst),
-              traits with flags (auto, marker, upstream, fundamental, non_enumerable,
-              coinductive, object_safe), positive/negative and upstream impls;
-      where-clauses (quantified by [forall<..>] over types and lifetimes): trait bound,
+      items:  structs and enums with flags (upstream, fundamental, phantom_data, one_zst,
+              repr(C), repr(packed)), traits with flags (auto, marker, upstream, fundamental,
+              non_enumerable, coinductive, object_safe), positive/negative and upstream impls;
+      parameters of every kind: type, lifetime, [const], [int], [float];
+      where-clauses (quantified by [forall<..>] over parameters of every kind): trait bound,
               lifetime outlives, type outlives;
-      types:  parameters and [Self], ADT applications, the 18 scalars, tuples, shared/mutable
-              references, raw pointers, slices, [str], [!]; lifetimes: parameters, ['static],
-              ['erased].
+      types:  parameters and [Self], ADT applications (type, lifetime and const arguments),
+              the 18 scalars, tuples, shared/mutable references, raw pointers, slices, arrays
+              with a const parameter or a value as length, [str], [!], fn pointers
+              ([for<'a,..>], [unsafe], variadic), [dyn B + .. + 'l] with [forall<..>] bounds;
+              lifetimes: parameters, ['static], ['erased].
 
     [norm] is the identity on this fragment: it has no associated-type equality bounds (the
     only construct whose lowering adds a where-clause, namely the trait bound it implies) and
     the writer reproduces every where-clause list element by element, so "as a set" is
-    witnessed by list equality.
+    witnessed by list equality.  [wf] states what every lowered program satisfies: variables
+    bound and of the right kind, references to existing items with matching argument kinds,
+    distinct struct/enum names and distinct trait names, no [dyn] inside the arguments of a
+    [dyn] bound and the bounds of a [dyn] in the order lowering puts them.
 
     Not covered by a theorem (only by the end-to-end differential test of [checks/c22.py]):
-    variances, reprs, int/float/const parameters and arrays, associated types/values and their
-    bounds, equality bounds, fn pointers, dyn, opaque types, fn definitions, lang attributes.
-    The statement intended for that full fragment of DESIGN.md is [parse_print_full_statement]
-    below, with [norm] adding the implied trait bound after each equality bound. *)
+    associated types/values and their bounds, equality bounds (hence the [norm] that adds the
+    implied trait bound), [#[variance]], [#[repr(<int>)]], lang attributes, opaque types, fn
+    definitions.  The statement intended for that full fragment of DESIGN.md is
+    [parse_print_full_statement] below. *)
 
 From Coq Require Import List NArith Bool Arith PeanoNat Lia.
 Import ListNotations.
@@ -60,13 +66,15 @@ Definition w_prog : program :=
   [ ITrait 10%N [KTy; KLt] {| tf_auto := false; tf_marker := true; tf_upstream := false; tf_fundamental := false;
                             tf_non_enumerable := false; tf_coinductive := true; tf_object_safe := false |}
       [ ([], WImpl (TVar (1, 0)) 0 [GTy (TVar (1, 1)); GLt (LVar (1, 2))]) ];
-    IStruct 11%N [KLt; KTy] {| sf_upstream := true; sf_fundamental := false; sf_phantom_data := false; sf_one_zst := true |}
+    IStruct 11%N [KLt; KTy] {| sf_upstream := true; sf_fundamental := false; sf_phantom_data := false; sf_one_zst := true; sf_repr_c := true; sf_repr_packed := false |}
       [ TRef true (LVar (0, 0)) (TVar (0, 1)); TTuple [TScalar Su8]; TAdt 1 [GLt LStatic; GTy (TTuple [])];
-        TRaw false (TSlice TStr); TRaw true TNever ]
+        TRaw false (TSlice TStr); TRaw true TNever;
+        TFn 1 true true [TRef false (LVar (0, 0)) (TVar (1, 1))] (TTuple []);
+        TDyn [DB [KLt] 0 [GTy (TScalar Su8); GLt (LVar (0, 0))]] (LVar (0, 0)) ]
       [ ([KLt], WTyOut (TVar (1, 1)) (LVar (0, 0))); ([], WLtOut (LVar (1, 0)) LStatic) ];
     IImpl [KTy] false false 0 [GTy (TScalar Sbool); GLt LErased] (TAdt 1 [GLt LStatic; GTy (TVar (0, 0))])
       [ ([KTy], WImpl (TVar (0, 0)) 0 [GTy (TVar (1, 0)); GLt LStatic]) ];
-    IEnum 12%N [KInt; KConst] {| sf_upstream := false; sf_fundamental := true; sf_phantom_data := false; sf_one_zst := false |}
+    IEnum 12%N [KInt; KConst] {| sf_upstream := false; sf_fundamental := true; sf_phantom_data := false; sf_one_zst := false; sf_repr_c := false; sf_repr_packed := true |}
       [ []; [TVar (0, 0); TAdt 3 [GTy TStr; GCVar (0, 1)]; TArray (TAdt 3 [GTy TNever; GCVal 7%N]) (CVar (0, 1))] ]
       [ ([KFloat; KConst], WTyOut (TArray (TVar (0, 0)) (CVal 3%N)) LStatic) ] ].
 
@@ -81,5 +89,5 @@ Qed.
 Example parse_print_nonvacuous : parse_fuel (need w_prog) (print w_prog) = Some w_prog.
 Proof. apply parse_print_small; [apply w_prog_wf|lia]. Qed.
 
-Example print_w_prog_tokens : length (print w_prog) = 189.
+Example print_w_prog_tokens : length (print w_prog) = 238.
 Proof. vm_compute. reflexivity. Qed.
